@@ -15,6 +15,12 @@
 (* the state reached (they are stable, see Optimizer.tla) and the verdict  *)
 (* for the record is printed.                                              *)
 (*                                                                         *)
+(* A run record of a session (several calls in one process) also carries   *)
+(* r.out.kept: the parameter vectors returned by the earlier calls of the  *)
+(* session as the caller finds them after this call (clauses               *)
+(* EarlierResultKeptByLaterCalls, ResultsShareNoMemory, reported for the   *)
+(* call after which an earlier result had changed).                        *)
+(*                                                                         *)
 (* Records with op in {up, down, up_down, down_up, perturb} are single     *)
 (* calls of _project_params_up/_project_params_down/perturb_params judged  *)
 (* against the module's operators.                                         *)
@@ -29,8 +35,21 @@ vars == <<i, j, bad, ovars>>
 F(name, ok) == IF ok THEN {} ELSE {name}
 Raised(r) == "raised" \in DOMAIN r.out
 
+\* ---- results kept by the caller ----
+\* single calls: r.out.<key>_end = the returned object read again after ALL later calls of the driver,
+\* r.out.shares_earlier = it overlaps an earlier kept result in memory
+FKeptStatic(r, key) ==
+    (IF (key \o "_end") \in DOMAIN r.out THEN F("EarlierResultKeptByLaterCalls", r.out[key \o "_end"] = r.out[key]) ELSE {}) \cup
+    (IF "shares_earlier" \in DOMAIN r.out THEN F("ResultsShareNoMemory", r.out.shares_earlier = FALSE) ELSE {})
+\* sessions: r.out.kept = the results of the earlier calls of the session, read again after this call
+FKeptRun(r) ==
+    IF "kept" \in DOMAIN r.out
+    THEN F("EarlierResultKeptByLaterCalls", EarlierResultsKept(r.out.kept.at_return, r.out.kept.now)) \cup
+         F("ResultsShareNoMemory", NoSharedMemory(r.out.kept.shares))
+    ELSE {}
+
 \* ---- single-call records ----
-FailedStatic(r) ==
+FailedStaticCall(r) ==
     CASE r.op = "up"      -> IF Raised(r) THEN {"ProjectUpRaised"}
                              ELSE F("ProjectUp", r.out.y = Up(r.in.x, r.in.fixed))
       [] r.op = "down"    -> IF Raised(r) THEN {"ProjectDownRaised"}
@@ -43,6 +62,9 @@ FailedStatic(r) ==
       [] r.op = "perturb" -> IF Raised(r) THEN {"PerturbRaised"}
                              ELSE F("PerturbInBounds", PerturbInBounds(r.out.p, r.in.lb, r.in.ub))
       [] OTHER            -> {"UnknownOp"}
+FailedStatic(r) ==
+    FailedStaticCall(r) \cup
+    (IF Raised(r) THEN {} ELSE IF r.op \in {"up", "down_up"} THEN FKeptStatic(r, "y") ELSE IF r.op \in {"down", "up_down"} THEN FKeptStatic(r, "x") ELSE {})
 
 \* ---- run records ----
 Events(r) == r.out.events
@@ -74,7 +96,7 @@ EventStep(r) ==
               /\ UNCHANGED ovars
 EndStep(r) ==
     /\ j = Len(Events(r)) + 1
-    /\ LET f == bad \cup Violated IN IF f = {} THEN TRUE ELSE PrintT(<<"BAD", r.id, f>>)
+    /\ LET f == bad \cup Violated \cup FKeptRun(r) IN IF f = {} THEN TRUE ELSE PrintT(<<"BAD", r.id, f>>)
     /\ i' = i + 1 /\ j' = 0 /\ bad' = {} /\ Reset
 
 Next == /\ i < Len(Trace)
